@@ -35,8 +35,23 @@ func init() {
 // writeFamily: functions of sse with an io.Writer parameter returning (int|int64, error).
 func writeFamily(P *Program) []*ssa.Function {
 	var out []*ssa.Function
+	isMember := map[*ssa.Function]bool{}
 	for _, fn := range P.Funcs {
-		if !inSSEPackage(fn) || fn.Parent() != nil || fn.Synthetic != "" {
+		if !inSSEPackage(fn) || fn.Synthetic != "" {
+			continue
+		}
+		if fn.Parent() != nil {
+			// an immediately-invoked literal inside a family function (an inlined helper) that returns
+			// (count, error) is a member of the family in its own right: it is analysed like the others and
+			// its call is a family call of its parent
+			if iifeSiteCached(fn) == nil || !isMember[fn.Parent()] {
+				continue
+			}
+			res := fn.Signature.Results()
+			if res.Len() == 2 && res.At(1).Type().String() == "error" && (res.At(0).Type().String() == "int" || res.At(0).Type().String() == "int64") {
+				out = append(out, fn)
+				isMember[fn] = true
+			}
 			continue
 		}
 		res := fn.Signature.Results()
@@ -54,6 +69,7 @@ func writeFamily(P *Program) []*ssa.Function {
 		}
 		if hasW {
 			out = append(out, fn)
+			isMember[fn] = true
 		}
 	}
 	return out
@@ -69,7 +85,7 @@ type writeCall struct {
 
 func writeCallsOf(P *Program, fn *ssa.Function, family map[*ssa.Function]bool) []writeCall {
 	var out []writeCall
-	eachInstrDeep(fn, func(in ssa.Instruction) {
+	eachInstr(fn, func(in ssa.Instruction) {
 		call, ok := in.(*ssa.Call)
 		if !ok {
 			return
@@ -331,6 +347,30 @@ func r02_2(c *Ctx) {
 			if why != "" {
 				break
 			}
+			if len(seq) == 0 && p.Ret != nil && nm == "(*Message).writeMessageField" {
+				// a field that is set is written, whatever its value: nothing is written only where the field
+				// was found unset
+				unset := pathEstablishes(p.St, factBool(func(v ssa.Value) bool {
+					_, ok := isModCall(v, "(messageField).IsSet")
+					return ok
+				}, false))
+				if !unset {
+					// the flag read directly
+					unset = pathEstablishes(p.St, factBool(func(v ssa.Value) bool {
+						_, ok := isFieldLoad(v, "messageField", "set")
+						if !ok {
+							if f, isF := v.(*ssa.Field); isF {
+								_, ok = isFieldSel(f, "messageField", "set")
+							}
+						}
+						return ok
+					}, false))
+				}
+				if !unset {
+					why = "a path writes nothing although the field was not found unset (a set ID or type with a particular value is skipped)"
+					break
+				}
+			}
 			if len(seq) == 3 {
 				full = true
 			} else if len(seq) > 0 {
@@ -348,6 +388,31 @@ func r02_2(c *Ctx) {
 		c.check(why == "", name, P.pos(fn.Pos()), "on every path: prefix, payload, single LF, in this order (shorter only after a failed write); "+itoa(len(paths))+" paths",
 			"the line writer does not write exactly prefix, payload and a single LF in this order ("+why+"): two values on one line, or a missing/extra line break, merge or split fields and events")
 	}
+	// the per-field wrappers hand their field to the line writer on every path (no value is special-cased)
+	for _, nm := range []string{"(*Message).writeID", "(*Message).writeType"} {
+		wf := P.Fn(nm)
+		if wf == nil {
+			continue // merged into the caller: the line writer's own obligations apply there
+		}
+		var fwd ssa.Instruction
+		eachInstrDeep(wf, func(in ssa.Instruction) {
+			if _, ok := isModCall(in, "(*Message).writeMessageField"); ok {
+				if li, ok := liftInstr(in, wf); ok {
+					fwd = li
+				}
+			}
+		})
+		if fwd == nil {
+			continue
+		}
+		skipped := false
+		for _, ret := range returnsOf(wf) {
+			if reachesAvoiding(entryPoint(wf), ret, func(in ssa.Instruction) bool { return in == fwd }, nil) {
+				skipped = true
+			}
+		}
+		c.check(!skipped, fnLabel(wf)+":always-forwards", P.pos(wf.Pos()), "the wrapper hands its field to the line writer on every path", "the wrapper returns without writing its field on some path (a particular value, e.g. the type \"message\", is skipped): the decoded message differs from the encoded one")
+	}
 	// Message.WriteTo
 	fn := P.Fn("(*Message).WriteTo")
 	if fn == nil {
@@ -355,6 +420,11 @@ func r02_2(c *Ctx) {
 		return
 	}
 	wcs := writeCallsOf(P, fn, fam)
+	for _, rf := range regionFuncs(fn) {
+		if rf != fn {
+			wcs = append(wcs, writeCallsOf(P, rf, fam)...)
+		}
+	}
 	var final *writeCall
 	nChunk := 0
 	for i := range wcs {
@@ -373,13 +443,13 @@ func r02_2(c *Ctx) {
 				// receiver &e.chunks[i], i the range index; loop depth 1
 				recvOK := false
 				if ia, ok := wc.call.Common().Args[0].(*ssa.IndexAddr); ok {
-					if b, ok := isFieldLoad(ia.X, "Message", "chunks"); ok && b == ssa.Value(fn.Params[0]) {
+					if b, ok := isFieldLoad(ia.X, "Message", "chunks"); ok && (b == ssa.Value(fn.Params[0]) || carriesOnly(b, fn.Params[0])) {
 						if _, isPhiOrAdd := ia.Index.(*ssa.BinOp); isPhiOrAdd || isPhi(ia.Index) {
 							recvOK = true
 						}
 					}
 				}
-				c.check(recvOK && len(loopsContaining(fn, wc.call.Block())) == 1, fnLabel(fn)+":chunks", P.ipos(wc.call), "every chunk is written by one call inside the range over e.chunks", "chunks are not written once each, in order, by one call inside a single range over e.chunks")
+				c.check(recvOK && len(loopsContaining(wc.call.Parent(), wc.call.Block())) == 1, fnLabel(fn)+":chunks", P.ipos(wc.call), "every chunk is written by one call inside the range over e.chunks", "chunks are not written once each, in order, by one call inside a single range over e.chunks")
 			}
 		}
 	}
@@ -452,6 +522,31 @@ func r02_4(c *Ctx) {
 		if !g {
 			gAll = false
 		}
+	}
+	// ... and it is written whenever the value is >= 1 ms: a return that wrote nothing is reached only
+	// where millis <= 0 was established
+	if paths, okP := abstractPaths(fn, 4096, nil); okP {
+		isMs := func(v ssa.Value) bool { return v == ssa.Value(ms) }
+		isWrite := map[ssa.Instruction]bool{}
+		for _, wc := range wcs {
+			isWrite[wc.call] = true
+		}
+		skipped := ""
+		for _, p := range paths {
+			if p.Ret == nil {
+				continue
+			}
+			wrote := false
+			for _, in := range p.Instrs {
+				if isWrite[in] {
+					wrote = true
+				}
+			}
+			if !wrote && !pathEstablishes(p.St, factInt(isMs, negInf, negInf, 0)) {
+				skipped = P.ipos(p.Ret)
+			}
+		}
+		c.check(skipped == "", name+":written-when-positive", P.ipos(ms), "the retry line is skipped only when the value is below 1 ms", "a positive retry value can be skipped (return without a write at "+skipped+" on a path that did not establish millis <= 0): the retry field is lost on the wire")
 	}
 	c.check(gAll, name+":positive-only", P.ipos(ms), "the retry line is written only when the value is >= 1 ms", "a zero or negative retry value can be written (\"retry: \" with no digits, or garbage)")
 	// digit buffer
@@ -740,13 +835,13 @@ func r15_2(c *Ctx) {
 				// acceptable only if it is the last write and its error is returned directly
 				last := true
 				for _, o := range wcs {
-					if o.call != wc.call && reachesAvoiding(afterInstr(wc.call), o.call, nil, nil) {
+					if o.call != wc.call && reachesAvoidingLocal(afterInstr(wc.call), o.call, nil, nil) {
 						last = false
 					}
 				}
 				retOK := true
-				forward([]startPoint{afterInstr(wc.call)}, func(in ssa.Instruction) searchAction {
-					if r, ok := in.(*ssa.Return); ok {
+				forwardLocal([]startPoint{afterInstr(wc.call)}, func(in ssa.Instruction) searchAction {
+					if r, ok := in.(*ssa.Return); ok && r.Results[1] != wc.err {
 						for _, s := range sources(r.Results[1]) {
 							if s != wc.err {
 								retOK = false
@@ -754,7 +849,7 @@ func r15_2(c *Ctx) {
 						}
 					}
 					return cont
-				})
+				}, nil)
 				c.check(last && retOK, name, P.ipos(wc.call), "last write: its error is returned as is", "a write's error is neither tested nor returned")
 				continue
 			}
@@ -762,14 +857,14 @@ func r15_2(c *Ctx) {
 			blocked := map[cfgEdge]bool{*nilE: true}
 			cont2 := ""
 			for _, o := range wcs {
-				if reachesAvoiding(afterInstr(wc.call), o.call, nil, blocked) {
+				if reachesAvoidingLocal(afterInstr(wc.call), o.call, nil, blocked) {
 					cont2 = P.ipos(o.call)
 				}
 			}
 			// error edge returns that error
 			retOK := true
-			forward([]startPoint{atEdge(nilE.From, 1-nilE.Idx)}, func(in ssa.Instruction) searchAction {
-				if r, ok := in.(*ssa.Return); ok {
+			forwardLocal([]startPoint{atEdge(nilE.From, 1-nilE.Idx)}, func(in ssa.Instruction) searchAction {
+				if r, ok := in.(*ssa.Return); ok && r.Results[1] != wc.err {
 					for _, s := range sources(r.Results[1]) {
 						if s != wc.err {
 							retOK = false
@@ -782,7 +877,7 @@ func r15_2(c *Ctx) {
 					}
 				}
 				return cont
-			})
+			}, nil)
 			c.check(cont2 == "" && retOK, name, P.ipos(wc.call), "the next write happens only after err == nil; the error edge returns this error",
 				"after a failed write another write ("+cont2+") is still reachable, or the error edge does not return this write's error: WriteTo does not stop at the first error")
 		}
@@ -814,7 +909,10 @@ func r15_3(c *Ctx) {
 					wt = call
 				case cn == spec.get:
 				case call.Call.IsInvoke() || (cn != "" && cn != spec.get):
-					other = cn + call.Call.Method.String()
+					other = cn
+					if call.Call.IsInvoke() {
+						other = call.Call.Method.String()
+					}
 				}
 			}
 		})
@@ -840,16 +938,38 @@ func r15_4(c *Ctx) {
 		c.anchor("(*Message).UnmarshalText")
 		return
 	}
+	// the receiver is reset before anything reads or writes it: the reset call dominates every return and
+	// every access to a field of the receiver, and every store through the receiver
 	first := false
-	for _, in := range fn.Blocks[0].Instrs {
+	var resets []*ssa.Call
+	eachInstrDeep(fn, func(in ssa.Instruction) {
 		if call, ok := in.(*ssa.Call); ok {
-			if callee := call.Call.StaticCallee(); callee != nil && callee.Name() == "reset" && call.Call.Args[0] == ssa.Value(fn.Params[0]) {
-				first = true
+			if callee := call.Call.StaticCallee(); callee != nil && callee.Name() == "reset" && len(call.Call.Args) > 0 && (call.Call.Args[0] == ssa.Value(fn.Params[0]) || carriesOnly(call.Call.Args[0], fn.Params[0])) {
+				resets = append(resets, call)
 			}
-			break
 		}
-		if _, ok := in.(*ssa.Store); ok {
-			break
+	})
+	for _, reset := range resets {
+		if len(loopsContaining(reset.Parent(), reset.Block())) != 0 {
+			continue
+		}
+		ok := true
+		for _, ret := range returnsOf(fn) {
+			if !instrDominates(reset, ret) {
+				ok = false
+			}
+		}
+		eachInstr(fn, func(in ssa.Instruction) {
+			fa, isFA := in.(*ssa.FieldAddr)
+			if !isFA || !(fa.X == ssa.Value(fn.Params[0]) || carriesOnly(fa.X, fn.Params[0])) {
+				return
+			}
+			if !instrDominates(reset, fa) {
+				ok = false
+			}
+		})
+		if ok {
+			first = true
 		}
 	}
 	c.check(first, fnLabel(fn)+":reset-first", P.pos(fn.Pos()), "the receiver is reset before parsing", "UnmarshalText does not reset the receiver first: previous fields survive and the round trip is not exact")
@@ -1114,4 +1234,56 @@ func r15_5(c *Ctx) {
 	c.check(why == "" && nErr > 0 && nOK > 0, name+":empty-verdict", P.pos(fn.Pos()), "the final verdict distinguishes exactly (parser error | nothing decoded) from (something decoded): "+itoa(nErr)+" error / "+itoa(nOK)+" success paths",
 		"UnmarshalText's final verdict is wrong: "+why)
 	c.ok(name+":empty-verdict-paths", P.pos(fn.Pos()), itoa(len(paths))+" paths enumerated")
+}
+
+// ---------------------------------------------------------------------------
+// R15.6: UnmarshalText keeps every data/comment line as one chunk
+
+func init() {
+	register(&Rule{ID: "R15.6", Title: "UnmarshalText stores each data/comment field as exactly one chunk holding the field's value", Floor: 1, Run: r15_6})
+	if p := properties["C15"]; p != nil {
+		p.Rules = append(p.Rules, "R15.6")
+		p.Explanation += " R15.6 in Message.UnmarshalText the data/comment case appends exactly one chunk whose content is the field's value, directly; it does not go through AppendData/AppendComment/appendText, which re-split their argument at line breaks and append nothing for an empty string (an empty data line would vanish from the round trip)."
+	}
+}
+
+func r15_6(c *Ctx) {
+	P := c.P
+	fn := P.Fn("(*Message).UnmarshalText")
+	if fn == nil {
+		c.anchor("(*Message).UnmarshalText")
+		return
+	}
+	name := fnLabel(fn) + ":one-chunk-per-line"
+	var via *ssa.Call
+	direct := false
+	eachInstrDeep(fn, func(in ssa.Instruction) {
+		if call, ok := isModCall(in, "(*Message).AppendData", "(*Message).AppendComment", "(*Message).appendText"); ok {
+			via = call
+		}
+		st, ok := in.(*ssa.Store)
+		if !ok {
+			return
+		}
+		if _, ok := isFieldSel(st.Addr, "Message", "chunks"); !ok {
+			return
+		}
+		call, ok := st.Val.(*ssa.Call)
+		if !ok {
+			return
+		}
+		if b, ok := call.Call.Value.(*ssa.Builtin); ok && b.Name() == "append" && len(call.Call.Args) == 2 {
+			if lb, ok := liftBlock(st.Block(), fn); ok && (inFieldCase(fn, "data", lb) || inFieldCase(fn, ":", lb)) {
+				direct = true
+			}
+		}
+	})
+	switch {
+	case via != nil:
+		c.bad(name, P.ipos(via), "UnmarshalText adds data/comment lines through "+calleeName(via)+", which re-splits its argument and appends nothing for an empty string: an empty data or comment line disappears from UnmarshalText(MarshalText(m))")
+	case direct:
+		c.ok(name, P.pos(fn.Pos()), "each data/comment field is appended as one chunk, directly")
+	default:
+		c.ok(name, P.pos(fn.Pos()), "not decided: no direct append to the chunks in the data/comment case (and no re-splitting helper either)")
+	}
 }
